@@ -903,7 +903,6 @@ impl RefRecord<'_> {
     pub fn seq_lines(&self) -> SeqLines {
         SeqLines {
             data: self.buffer,
-            len: self.buf_pos.seq_pos.len() - 1,
             pos_iter: self
                 .buf_pos
                 .seq_pos
@@ -970,7 +969,6 @@ impl RefRecord<'_> {
 /// Iterator over sequence the lines of a FASTA record.
 pub struct SeqLines<'a> {
     data: &'a [u8],
-    len: usize,
     pos_iter: iter::Zip<slice::Iter<'a, usize>, iter::Skip<slice::Iter<'a, usize>>>,
 }
 
@@ -1003,7 +1001,7 @@ impl<'a> DoubleEndedIterator for SeqLines<'a> {
 impl ExactSizeIterator for SeqLines<'_> {
     #[inline]
     fn len(&self) -> usize {
-        self.len
+        self.pos_iter.len()
     }
 }
 
